@@ -29,6 +29,10 @@ from .instr import (
     AddressingMode,
 )
 
+# Page-local control transfers: their 16-bit operand is an offset within the current
+# 64 KiB page.
+NEAR_CONTROL_NAMES = frozenset({"CALL", "JP", "JPZ", "JPNZ", "JPC", "JPNC"})
+
 # A simple cache for the reverse lookup table
 REVERSE_OPCODES_CACHE: Dict[str, List[Dict[str, Any]]] = {}
 
@@ -315,6 +319,15 @@ class Assembler:
                             )
                         if isinstance(op, Imm20) and isinstance(op.value, int):
                             op.extra_hi = (op.value >> 16) & 0xFF
+                        if (
+                            mnemonic in NEAR_CONTROL_NAMES
+                            and isinstance(op, Imm16)
+                            and isinstance(op.value, int)
+                        ):
+                            # Page-local targets are checked and reduced to their low
+                            # 16 bits in pass two; a full same-page literal must not
+                            # overflow the size calculation.
+                            op.value &= 0xFFFF
 
                     encoder = Encoder()
                     try:
@@ -454,8 +467,7 @@ class Assembler:
     def _normalize_near_control_flow(self, instr: Instruction) -> None:
         """Resolve page-local CALL/JP* immediates against the current 64 KiB page."""
 
-        near_control_names = {"CALL", "JP", "JPZ", "JPNZ", "JPC", "JPNC"}
-        if instr.name() not in near_control_names:
+        if instr.name() not in NEAR_CONTROL_NAMES:
             return
 
         ops = list(instr.operands())
